@@ -6,6 +6,8 @@ package c11
 
 import (
 	"context"
+	"errors"
+	"strconv"
 	"sync/atomic"
 
 	"github.com/samsarahq/thunder/batch"
@@ -64,9 +66,13 @@ func (i ItemS) attr() Attr {
 	return Attr{i.N, i.S, i.F, i.U, i.B, i.W, i.I, i.V, i.G, [3]string{i.T0, i.T1, i.T2}}
 }
 
+func (i ItemI) key() string { return strconv.FormatInt(i.Id, 10) }
+func (i ItemS) key() string { return i.Id }
+
 type item interface {
 	ItemI | ItemS
 	attr() Attr
+	key() string
 }
 
 // implKind is the way a filter / sort field is implemented.
@@ -104,6 +110,12 @@ type caseEnv struct {
 	itemsS          []ItemS
 	filterBatchFlag bool
 	sortBatchFlag   bool
+	// harness switch: while failID is non-empty every per-element filter func
+	// (plain, Expensive, fallback) returns an error for the element with that
+	// key; with failBatch the batch filter funcs do too. Only set between
+	// executions of the owning case.
+	failID    string
+	failBatch bool
 	calls           [nCounters]int64
 }
 
@@ -112,25 +124,44 @@ type envKey struct{}
 func envOf(ctx context.Context) *caseEnv { return ctx.Value(envKey{}).(*caseEnv) }
 func note(ctx context.Context, c int)    { atomic.AddInt64(&envOf(ctx).calls[c], 1) }
 
+var errInjected = errors.New("c11: injected filter failure")
+
+func failFor(ctx context.Context, key string) bool {
+	e := envOf(ctx)
+	return e.failID != "" && e.failID == key
+}
+
 // filterOpt registers filter field `name` reading text T[idx]. Filter funcs
 // take *T (so value-node connections exercise thunder's copy-to-pointer path).
 func filterOpt[T item](name string, idx int, kind implKind) schemabuilder.FieldFuncOption {
-	plain := func(ctx context.Context, it *T) string {
+	plain := func(ctx context.Context, it *T) (string, error) {
 		note(ctx, cFilterPlain)
-		return (*it).attr().T[idx]
+		if failFor(ctx, (*it).key()) {
+			return "", errInjected
+		}
+		return (*it).attr().T[idx], nil
 	}
 	exp := func(ctx context.Context, it *T) (string, error) {
 		note(ctx, cFilterExp)
+		if failFor(ctx, (*it).key()) {
+			return "", errInjected
+		}
 		return (*it).attr().T[idx], nil
 	}
 	fallback := func(ctx context.Context, it *T) (string, error) {
 		note(ctx, cFilterFallback)
+		if failFor(ctx, (*it).key()) {
+			return "", errInjected
+		}
 		return (*it).attr().T[idx], nil
 	}
 	batchFn := func(ctx context.Context, its map[batch.Index]*T) (map[batch.Index]string, error) {
 		note(ctx, cFilterBatch)
 		out := make(map[batch.Index]string, len(its))
 		for i, it := range its {
+			if envOf(ctx).failBatch && failFor(ctx, (*it).key()) {
+				return nil, errInjected
+			}
 			out[i] = (*it).attr().T[idx]
 		}
 		return out, nil
